@@ -176,7 +176,11 @@ def inherent(ex, ci, sb, meth, args, fn, dest_ty):
                 if ex.branch(z3.UGE(x.v, (1 << (63 - SEC_SHIFT)) // mul)): raise Unsupported('Duration overflow')
             return dur(Int(z3.simplify((x.v * mul if mul != 1 else x.v) << SEC_SHIFT), 'u64'))
         if meth in ('from_millis', 'from_micros', 'from_nanos'):
-            raise Unsupported('sub-second Duration constructors are not representable in the 2^-20 s time model')
+            # exact only for concrete amounts that are a whole number of 2^-20 s units (500 ms = 2^19 units, 250 ms, 125 ms, whole seconds ...)
+            per = {'from_millis': 1000, 'from_micros': 10 ** 6, 'from_nanos': 10 ** 9}[meth]
+            x = ex.cast(a0, 'u64')
+            if isinstance(x.v, int) and (x.v << SEC_SHIFT) % per == 0: return dur(Int((x.v << SEC_SHIFT) // per, 'u64'))
+            raise Unsupported('sub-second Duration constructors are representable in the 2^-20 s time model only for concrete multiples of 2^-20 s')
         d = ex.deref(a0)
         if meth == 'as_secs': return ex.binop('Shr', d.fields[0].v, Int(SEC_SHIFT, 'u64'))
         if meth == 'is_zero': return seq(ex, d.fields[0].v, Int(0, 'u64'))
